@@ -1062,6 +1062,10 @@ class Ctx:
         r = a == b
         return r
 
+    def le(self, a, b, tol=1e-9):
+        """a <= b, exactly (the concrete replay allows ``tol`` of float slack)"""
+        return a <= b
+
     def approx(self, a, b, tol=1e-9):
         """|a - b| <= tol: for comparisons where one side went through concrete
         IEEE arithmetic (e.g. 1/3 as a double) and the other is exact."""
